@@ -4,8 +4,8 @@
    equation "fitted value = observed-outcome cell mean" of a saturated GLM is used), (frequency-)weighted or not. *)
 From Coq Require Import QArith List.
 From Zepid Require Import Base.QSum Base.QUtil Base.Rows Proofs.RowsProofs Model.Estimators Proofs.EstimatorsProofs
-     GenProofs.GenProofs_gfmarg.
-From ZepidGen Require Import Gen_gfmarg_Q.
+     GenProofs.GenProofs_gfmarg GenProofs.GenProofs_drest.
+From ZepidGen Require Import Gen_gfmarg_Q Gen_drest_Q.
 Import ListNotations.
 Open Scope Q_scope.
 
@@ -58,6 +58,27 @@ Theorem C01_src_gformula_unweighted : forall t a l, (forall r, In r l -> wt r ==
   == gf_marginal t a l.
 Proof. exact gen_gf_now. Qed.
 
+(* ---- the point-estimate lines of aipw_calculator and TMLE.fit in the CURRENT source (translated on every run) are the
+   estimators of the theorems above.  AIPTW's difference is taken over the rows with an observed outcome (y1 - y0 is NaN as soon
+   as one pseudo-outcome is); its ratio is the ratio of the same two means when no outcome is missing -- with a missing outcome
+   np.nanmean(y1) and np.nanmean(y0) run over different rows (last theorem; outside the properties, which compare AIPTW with
+   the standardised estimate on complete outcomes only). *)
+Theorem C01_src_aiptw_difference : forall l, aipw_est_diff_w_Q (pview l) == aipw_rd l.
+Proof. exact gen_aipw_diff_w. Qed.
+Theorem C01_src_aiptw_difference_unweighted : forall l, (forall r, In r l -> wt r == 1) -> ~ Qlen (obs_rows l) == 0 ->
+  aipw_est_diff_now_Q (pview l) == aipw_rd l.
+Proof. exact gen_aipw_diff_now. Qed.
+Theorem C01_src_aiptw_ratio : forall l, (forall r, In r l -> obs r = true) ->
+  aipw_est_ratio_w_Q (pview l) == aipw_rr l /\ ((forall r, In r l -> wt r == 1) -> aipw_est_ratio_now_Q (pview l) == aipw_rr l).
+Proof. exact (fun l H => conj (gen_aipw_ratio_w l H) (gen_aipw_ratio_now l H)). Qed.
+Theorem C01_src_tmle_plugins : forall l, ~ Qlen l == 0 ->
+  tmle_est_rd_Q (tview l) == tmle_rd l /\ tmle_est_ate_Q (tview l) == tmle_rd l /\
+  tmle_est_rr_Q (tview l) == tmle_rr l /\ tmle_est_or_Q (tview l) == tmle_or l.
+Proof. exact gen_tmle_est. Qed.
+Theorem C01_aiptw_ratio_with_missing_outcome_uses_other_rows :
+  ~ aipw_est_ratio_now_Q (pview ratio_example) == aipw_rr ratio_example.
+Proof. exact aipw_ratio_missing_differs. Qed.
+
 Print Assumptions C01_iptw_arm_mean_is_std.
 Print Assumptions C01_iptw_measures.
 Print Assumptions C01_gformula_is_std.
@@ -65,3 +86,8 @@ Print Assumptions C01_aipw_is_std.
 Print Assumptions C01_tmle_is_std.
 Print Assumptions C01_src_gformula_weighted.
 Print Assumptions C01_src_gformula_unweighted.
+Print Assumptions C01_src_aiptw_difference.
+Print Assumptions C01_src_aiptw_difference_unweighted.
+Print Assumptions C01_src_aiptw_ratio.
+Print Assumptions C01_src_tmle_plugins.
+Print Assumptions C01_aiptw_ratio_with_missing_outcome_uses_other_rows.
